@@ -19,7 +19,7 @@ fcontracts = []
 THOROUGH = set()
 for _t in ('f32', 'f64'):
     THOROUGH |= {'glm_dot_bits_v3_' + _t, 'glm_dot_bits_v4_' + _t, 'glm_triangleNormal_' + _t, 'glm_angle_v4_' + _t, 'glm_orthonormalize_vec_' + _t,
-                 'glm_orientedAngle3_' + _t, 'glm_orientedAngle3_sign_' + _t, 'glm_closestPointOnLine_inside_orth_3_' + _t, 'glm_refract_unit_v3_' + _t}
+                 'glm_orientedAngle3_' + _t, 'glm_orientedAngle3_sign_' + _t, 'glm_closestPointOnLine_inside_orth_3_' + _t, 'glm_refract_unit_v3_' + _t, 'glm_refract_snell_v4_' + _t}
 THOROUGH |= {'glm_dot_bits_v2_f32', 'glm_dot_bits_v2_f64', 'glm_refract_tir_v3_f64', 'glm_refract_tir_v4_f64', 'glm_refract_bits_v2_f64',
              'glm_refract_bits_v3_f64', 'glm_refract_bits_v4_f64', 'glm_faceforward_bits_v4_f64'}
 # Contracts the portfolio could not decide (UNKNOWN / timeout): not claimed, listed in P.not_covered with the reason.
@@ -434,7 +434,7 @@ P.level_text = ('over the reals (machine arithmetic treated as mathematical): th
                 'extracts from /repo satisfies the Euclidean identities of the property statement for all real inputs in the stated '
                 'domain; plus bit-exact CBMC contracts (all float/double bit patterns) for the branch selection of faceforward, the '
                 'exact +0 vector of refract whenever the float k is negative, and the evaluation order of dot')
-P.level_note = ('trusted: clang-14 lowering, tools/ll2smt.py symbolic execution, z3 nlsat (no obligation of this property needed the sympy fallback), '
+P.level_note = ('trusted: clang-14 lowering, tools/ll2smt.py symbolic execution, z3 nlsat, sympy polynomial identity / Groebner (only glm_orthonormalize_vec_*), '
                 'rspec.py (dot, cross, Leibniz det), the ground axioms of sqrt / sin / cos / acos; for kind F: ll2c (T-checked), CBMC float model; in the '
                 '*_bits_* refract/dot contracts float products and sqrt are abstracted, in code and clause alike, by (commutative) uninterpreted '
                 'functions: a proof holds for every interpretation, hence for IEEE; in the faceforward/refract F contracts the branch condition is '
